@@ -85,8 +85,8 @@ func newRedisOnly(t *testing.T, first *backends) *backends {
 	return &backends{etcd: first.etcd, redis: r, mr: mr, cfg: first.cfg}
 }
 
-var appOf = map[string]string{"w1": "a", "w2": "a", "w3": "a", "w4": "b"}
-var entryOf = map[string]string{"w1": "x", "w2": "x", "w3": "y", "w4": "x"}
+var appOf = map[string]string{"w1": "a", "w2": "a", "w3": "a", "w4": "a2"} // "a" is a string prefix of "a2"
+var entryOf = map[string]string{"w1": "x", "w2": "x", "w3": "x2", "w4": "x"} // and "x" of "x2"
 
 // universe names are suffixed per sequence so that parallel sequences never collide
 type names struct{ sfx string }
@@ -95,10 +95,10 @@ func (n names) x(s string) string {
 	if s == "" {
 		return ""
 	}
-	return s + n.sfx
+	return n.sfx + s // the worker tag goes in front: prefix relations between names survive
 }
-func (n names) strip(s string) string { return strings.TrimSuffix(s, n.sfx) }
-func (n names) mine(s string) bool    { return strings.HasSuffix(s, n.sfx) }
+func (n names) strip(s string) string { return strings.TrimPrefix(s, n.sfx) }
+func (n names) mine(s string) bool    { return strings.HasPrefix(s, n.sfx) }
 
 func (n names) workload(w, node string) *coretypes.Workload {
 	id := n.x(w)
@@ -207,6 +207,8 @@ func size(ws []*coretypes.Workload, err error) int {
 }
 
 // snapshot reads back everything observable through the store API for this sequence's universe.
+var dsKey = map[[2]string]string{{"a", "x"}: "ax", {"a", "x2"}: "ay", {"a2", "x"}: "bx"}
+
 func snapshot(ctx context.Context, s store.Store, nm names) map[string]any {
 	snap := map[string]any{}
 	pods := []string{}
@@ -261,7 +263,7 @@ func snapshot(ctx context.Context, s store.Store, nm names) map[string]any {
 		wlv[w] = rec
 	}
 	snap["wl"] = wlv
-	a, b := nm.x("a"), nm.x("b")
+	a, b := nm.x("a"), nm.x("a2")
 	l := func(app, entry, node string, limit int64) ([]*coretypes.Workload, error) {
 		return s.ListWorkloads(ctx, app, entry, node, limit, nil)
 	}
@@ -271,14 +273,14 @@ func snapshot(ctx context.Context, s store.Store, nm names) map[string]any {
 	x4, e4 := l(b, "", "", 0)
 	x5, e5 := l(a, "", "", 1)
 	x6, e6 := l(a, "", "", 2)
-	x7, e7 := l(a, "y", "", 0)
+	x7, e7 := l(a, "x2", "", 0)
 	snap["list"] = map[string]any{"a": ids(x1, e1, nm), "ax": ids(x2, e2, nm), "axn1": ids(x3, e3, nm), "b": ids(x4, e4, nm), "ay": ids(x7, e7, nm),
 		"aLimit1": size(x5, e5), "aLimit2": size(x6, e6)}
 	ds := map[string]any{}
-	for _, ae := range [][2]string{{"a", "x"}, {"a", "y"}, {"b", "x"}} {
+	for _, ae := range [][2]string{{"a", "x"}, {"a", "x2"}, {"a2", "x"}} {
 		m, err := s.GetDeployStatus(ctx, nm.x(ae[0]), ae[1])
 		if err != nil {
-			ds[ae[0]+ae[1]] = []int{-1}
+			ds[dsKey[ae]] = []int{-1}
 			continue
 		}
 		row := []int{}
@@ -292,7 +294,7 @@ func snapshot(ctx context.Context, s store.Store, nm names) map[string]any {
 			}
 		}
 		row = append(row, extra)
-		ds[ae[0]+ae[1]] = row
+		ds[dsKey[ae]] = row
 	}
 	snap["deploy"] = ds
 	return snap
@@ -315,7 +317,7 @@ func (b *backends) wipe(ctx context.Context, nm names) {
 		for _, w := range []string{"w1", "w2", "w3", "w4"} {
 			_, _ = m.Delete(ctx, "/workloads/"+nm.x(w))
 		}
-		for _, a := range []string{"a", "b"} {
+		for _, a := range []string{"a", "a2"} {
 			for _, pre := range []string{"/deploy/", "/status/", "/processing/"} {
 				_, _ = m.Delete(ctx, pre+nm.x(a)+"/", clientv3.WithPrefix())
 			}
